@@ -327,6 +327,7 @@ def run(ctx):
     ctx.gen_step("report", T.translate, "C20_gen",
                  "harness/translate_report.py (ast -> Gallina printer for QUBOContainer.report: let-chains, if/elif chains, "
                  "`for v in range(a, b)` with a generated body, result-dictionary assignments; combinators in coq/theories/PyReport.v)")
+    from props import pysem; pysem.run(ctx, pysem.GROUPS_FOR.get(ctx.pid, ()))
     rng = ctx.rng
     n_random = 500 if ctx.quick else 9000
     cases = gen_cases(rng, n_random)
